@@ -65,9 +65,13 @@ End == /\ Ev.ev = "end"
           ELSE TRUE
        /\ UNCHANGED <<cfg, prev, cur, hist, bad>>
 
+Hang == /\ Ev.ev = "hang"
+        /\ (IF bad THEN TRUE ELSE Fail("deadlock"))
+        /\ bad' = TRUE /\ UNCHANGED <<cfg, prev, cur, hist>>
+
 BuildErr == Ev.ev = "builderr" /\ PrintT(<<"INFO", cfg.run, "builderr">>) /\ UNCHANGED <<cfg, prev, cur, hist, bad>>
 
-Next == l <= Len(Rec) /\ l' = l + 1 /\ (Reset \/ Skip \/ Fire \/ Query \/ Emit \/ End \/ BuildErr)
+Next == l <= Len(Rec) /\ l' = l + 1 /\ (Reset \/ Skip \/ Fire \/ Query \/ Emit \/ End \/ BuildErr \/ Hang)
 Spec == Init /\ [][Next]_vars
 
 Consumed == IF TLCGet("stats").diameter - 1 = Len(Rec) THEN TRUE
